@@ -58,6 +58,9 @@ structure Env (α : Type) where
   filter : Prog → Bool
   /-- `false`: the code without the `assert` of `CDQueue.push` (`python -O`) -/
   asserts : Bool := true
+  /-- `false`: the code as it is, `CDQueue(int(self.M), k)`; `true`: after the proposed fix C02-F4,
+      `CDQueue(max(1, int(self.M)), k)` -/
+  fixM : Bool := false
 
 /-- `Derivation` (constant_delay.py:33-40): `P` is excluded from comparisons -/
 structure Deriv (α : Type) where
@@ -160,7 +163,7 @@ def initTables (A : Arith α) (M : Int) (k : Nat) : List (NT × AList Sym (List 
 def St.init (E : Env α) : Option (St α) :=
   match bigM E.G with
   | none => none
-  | some M => initTables E.A M E.k E.G.rules {}
+  | some M => initTables E.A (if E.fixM then max 1 M else M) E.k E.G.rules {}
 
 /-! ### `_init_non_terminal_` / `_init_derivation_` (constant_delay.py:124-154) -/
 
